@@ -185,6 +185,53 @@ macro_rules! iter_fam {
 					$f.eq(C12, &format!("{tag}.iter.yields"), &got, &exp);
 				}
 			}
+			// ---- the consuming methods of Iterator / DoubleEndedIterator on a PARTLY consumed iterator:
+			// ---- what is left after the first k calls is segs[front yields .. len - back yields]
+			if let Some(all) = $case.get("segs").and_then(|v| v.as_array()) {
+				let all: Vec<String> = all.iter().map(text).collect();
+				let first_back = calls.iter().position(|c| *c == 1).map(|i| i + 1).unwrap_or(0);
+				for k in [first_back, calls.len() / 2] {
+					let fy = (0..k).filter(|i| calls[*i] == 0 && exp[*i].is_some()).count();
+					let by = (0..k).filter(|i| calls[*i] == 1 && exp[*i].is_some()).count();
+					let rest: Vec<&str> = if fy + by <= all.len() { all[fy..all.len() - by].iter().map(|s| s.as_str()).collect() } else { vec![] };
+					macro_rules! probe {
+						($what:expr, |$it:ident| $body:expr) => {{
+							let r = guard(|| {
+								#[allow(unused_mut)]
+								let mut $it = p.segments();
+								for c in &calls[..k] {
+									if *c == 0 { $it.next(); } else { $it.next_back(); }
+								}
+								$body
+							});
+							match r {
+								Err(m) => { $f.panic(C12, &format!("{tag}.iter.{}", $what), &m); None }
+								Ok(v) => Some(v),
+							}
+						}};
+					}
+					if let Some(n) = probe!("count", |it| it.count()) {
+						$f.eq(C12, &format!("{tag}.iter.partly_consumed.count"), n, rest.len());
+					}
+					if let Some(l) = probe!("last", |it| it.last().map(|s| s.as_str().to_string())) {
+						$f.eq(C12, &format!("{tag}.iter.partly_consumed.last"), l.as_deref(), rest.last().copied());
+					}
+					if let Some(l) = probe!("nth", |it| it.nth(1).map(|s| s.as_str().to_string())) {
+						$f.eq(C12, &format!("{tag}.iter.partly_consumed.nth(1)"), l.as_deref(), rest.get(1).copied());
+					}
+					if let Some(l) = probe!("nth_back", |it| it.nth_back(1).map(|s| s.as_str().to_string())) {
+						$f.eq(C12, &format!("{tag}.iter.partly_consumed.nth_back(1)"), l.as_deref(), if rest.len() >= 2 { Some(rest[rest.len() - 2]) } else { None });
+					}
+					if let Some((lo, hi)) = probe!("size_hint", |it| it.size_hint()) {
+						$f.ok(C12, &format!("{tag}.iter.partly_consumed.size_hint"), lo <= rest.len() && hi.map(|h| h >= rest.len()).unwrap_or(true), || json!({"lo": lo, "hi": hi, "left": rest.len()}));
+					}
+					if let Some(v) = probe!("rev_collect", |it| it.rev().map(|s| s.as_str().to_string()).collect::<Vec<_>>()) {
+						let mut e: Vec<String> = rest.iter().map(|s| s.to_string()).collect();
+						e.reverse();
+						$f.eq(C12, &format!("{tag}.iter.partly_consumed.rev"), v, e);
+					}
+				}
+			}
 		}
 	}};
 }
